@@ -251,7 +251,9 @@ class Ref:
                 return cellval(k)
             acc = cellval(n - 2)
             for k in range(n - 3, -1, -1):
-                acc = sj.ite(sj._cmp("lt", v, g[k + 1]), cellval(k), acc)
+                cond = sj._cmp("lt", v, g[k + 1])
+                sj.register_cell_atom(cond)
+                acc = sj.ite(cond, cellval(k), acc)
             return acc
 
         out = rec(0, [])
